@@ -31,6 +31,7 @@ func VerifC10Threads() {
 		tables[i] = t
 	}
 	var wg sync.WaitGroup
+	var newTables []RWTable[*vobj]
 	commits := make([][3]int, T)
 	for th := 0; th < T; th++ {
 		th := th
@@ -62,6 +63,14 @@ func VerifC10Threads() {
 				} else {
 					w.Abort()
 				}
+			case 2: // register a new table and write to it
+				nt, err := NewTable[*vobj](db, "n"+string(rune('a'+th)), vIDIndex)
+				if err == nil {
+					w := db.WriteTxn(nt)
+					nt.Insert(w, &vobj{id: []byte{byte(th)}})
+					w.Commit()
+					newTables = append(newTables, nt)
+				}
 			case 1: // create and close a change iterator (each takes its own write transaction)
 				i := c10lists[li][0]
 				w := db.WriteTxn(tables[i])
@@ -87,6 +96,9 @@ func VerifC10Threads() {
 			want += commits[th][i]
 		}
 		vnd.Assert(tables[i].NumObjects(rt) == want, "C05.threads.no-lost-write")
+	}
+	for _, nt := range newTables {
+		vnd.Assert(nt.NumObjects(rt) == 1, "C05.threads.new-table-write-lost")
 	}
 	acq, cyc, bh := vnd.LockStats()
 	vnd.Assert(acq > 0, "C10.monitor-saw-locks")
